@@ -6,6 +6,7 @@ import (
 	"fmt"
 	"math/rand"
 	"net/http"
+	"strings"
 	"sync/atomic"
 
 	"github.com/fullstorydev/grpchan/httpgrpc"
@@ -49,6 +50,10 @@ func checkC13(e *core.Env) {
 	tls := NewHTTPServer(&Service{}, carrierOpt{tls: true})
 	tlsMux := NewHTTPMux(&Service{}, carrierOpt{tls: true, basePath: "/sec/"})
 	inp := NewInproc(&Service{}, carrierOpt{})
+	unixPlain := NewHTTPServer(&Service{}, carrierOpt{unix: true})
+	unixTLS := NewHTTPMux(&Service{}, carrierOpt{unix: true, tls: true})
+	defer unixPlain.Close()
+	defer unixTLS.Close()
 	defer plain.Close()
 	defer tls.Close()
 	defer tlsMux.Close()
@@ -57,7 +62,7 @@ func checkC13(e *core.Env) {
 		c      *Carrier
 		scheme string
 	}
-	carriers := []tcase{{plain, "http"}, {tls, "https"}, {tlsMux, "https"}, {inp, "inproc"}}
+	carriers := []tcase{{plain, "http"}, {tls, "https"}, {tlsMux, "https"}, {inp, "inproc"}, {unixPlain, "http"}, {unixTLS, "https"}}
 	credKinds := []string{"disjoint", "overlap", "empty", "error"}
 	caseNo := 0
 	reps := e.N(3, 40)
@@ -101,6 +106,13 @@ func runC13Cell(e *core.Env, r *rand.Rand, c *Carrier, scheme string, secure boo
 		creds.err = errors.New("credential failure")
 	}
 	sc.ExtraOpts = []grpc.CallOption{grpc.PerRPCCredentials(creds)}
+	// a third of the calls end with an error status from the handler: metadata and peers are reported all the same
+	failCode := uint32(0)
+	if r.Intn(3) == 0 {
+		failCode = uint32(1 + r.Intn(16))
+		sc.Ret = Ret{How: "status", Code: failCode, Msg: "c13"}
+		cell += "|handler-fails"
+	}
 	if withOpts {
 		sc.PeerOpt = true
 		sc.NHdrOpt = 1
@@ -138,7 +150,12 @@ func runC13Cell(e *core.Env, r *rand.Rand, c *Carrier, scheme string, secure boo
 		}
 		return
 	}
-	if !handlerRan || !out.Seen || !out.OK {
+	if failCode != 0 {
+		if !handlerRan || !out.Seen || out.OK {
+			e.Violate("creds/call-failed/"+scheme, fmt.Sprintf("%s: handler should have run and failed the call with code %d: ran=%v outcome=%+v", cell, failCode, handlerRan, out), w)
+			return
+		}
+	} else if !handlerRan || !out.Seen || !out.OK {
 		e.Violate("creds/call-failed/"+scheme, fmt.Sprintf("%s: call should work but failed: %v", cell, out.Err), w)
 		return
 	}
@@ -158,7 +175,8 @@ func runC13Cell(e *core.Env, r *rand.Rand, c *Carrier, scheme string, secure boo
 	}
 	// peers
 	wantTLS := scheme == "https"
-	if p := run.HandlerPeer; p == nil || p.Addr == nil || p.Addr.String() == "" {
+	unix := strings.HasSuffix(c.Name, "-unix")
+	if p := run.HandlerPeer; p == nil || p.Addr == nil || (p.Addr.String() == "" && !unix) {
 		e.Violate("peer/handler-addr/"+scheme, cell+": handler peer has no address", w)
 	} else if wantTLS {
 		if _, ok := p.AuthInfo.(credentials.TLSInfo); !ok {
